@@ -317,7 +317,7 @@ static void on_fatal(int sig)
 int main(int argc, char ** argv)
 {
   int depth = 5;
-  std::string out = "/dev/stdout", modes = "1,7,21,0";
+  std::string out = "/dev/stdout", modes = "1,7,21,0", prefix;
   for (int i = 1; i < argc; i++) {
     std::string a = argv[i];
     auto nxt = [&]() { return std::string(i + 1 < argc ? argv[++i] : ""); };
@@ -325,6 +325,7 @@ int main(int argc, char ** argv)
     else if (a == "--out") out = nxt();
     else if (a == "--modes") modes = nxt();
     else if (a == "--with-ga-data") GA_DATA = atoi(nxt().c_str()) != 0;
+    else if (a == "--prefix") prefix = nxt();
   }
   setenv("BXDECAY0_RESOURCE_DIR", "/repo/resources", 0);
   if (!getenv("DX_VERBOSE")) {
@@ -348,6 +349,7 @@ int main(int argc, char ** argv)
   { Op o{"set_esum(0.5,1.5)", 4}; o.a = 0.5; o.b = 1.5; ops.push_back(o); }
   { Op o{"set_esum(1.5,0.5)", 4}; o.a = 1.5; o.b = 0.5; ops.push_back(o); }
   { Op o{"set_esum(1,1)", 4}; o.a = 1.0; o.b = 1.0; ops.push_back(o); }
+  { Op o{"set_esum(nan,nan)", 4}; o.a = NAN; o.b = NAN; ops.push_back(o); } // the window dropped again
   ops.push_back({"add_operation(MDL)", 5});
   ops.push_back({"add_operation(null)", 6});
   ops.push_back({"initialize", 7});
@@ -358,8 +360,30 @@ int main(int argc, char ** argv)
   struct Node { std::vector<int> hist; M m; std::string tag; };
   std::map<std::string, int> seen; // key -> depth
   std::deque<Node> frontier;
-  frontier.push_back({{}, M(), ""});
-  seen[M().key() + "|refused-before:"] = 0;
+  {
+    // optional start state (--prefix "op;op;..."): the search then begins in the state that history reaches - e.g. right
+    // after an initialisation that was refused - instead of at a newly constructed object
+    Node n0{{}, M(), ""};
+    std::stringstream ps(prefix);
+    std::string nm;
+    while (std::getline(ps, nm, ';')) {
+      if (nm.empty()) continue;
+      size_t k = 0;
+      while (k < ops.size() && ops[k].name != nm) k++;
+      if (k == ops.size()) {
+        fprintf(stdout, "HARNESS-ERROR unknown prefix operation %s\n", nm.c_str());
+        return 3;
+      }
+      M before = n0.m;
+      bool thr = apply_model(n0.m, ops[k]);
+      if (thr) n0.tag = ops[k].name + (ops[k].kind == 7 ? "@" + before.key() : std::string());
+      if (ops[k].kind == 10) n0.tag = "";
+      n0.hist.push_back((int)k);
+    }
+    depth += (int)n0.hist.size();
+    frontier.push_back(n0);
+    seen[n0.m.key() + "|refused-before:" + n0.tag] = 0;
+  }
   long transitions = 0, probes = 0, max_depth = 0;
   std::map<std::string, std::string> viol; // key -> text
   std::vector<std::string> samples;
@@ -418,6 +442,38 @@ int main(int argc, char ** argv)
       if (op.kind == 9 || op.kind == 10) {
         std::string dd = defaults_diff(*I.g);
         if (!dd.empty()) V("defaults", "after " + op.name + ": " + dd);
+      }
+      if (op.kind == 7 && !o.threw) {
+        // a successful initialisation must leave exactly the working parameters a fresh instance configured alike gets
+        // (whatever this object went through before: refused initialisations, resets, other configurations)
+        // (the fresh instance's parameters depend on the reference state only: built once per state)
+        struct Snap { bool ok; bxdecay0::bbpars pars; double toall; };
+        static std::map<std::string, std::shared_ptr<Snap>> fresh_cache;
+        auto fc = fresh_cache.find(m.key());
+        if (fc == fresh_cache.end()) {
+          auto sn = std::make_shared<Snap>();
+          Impl F0;
+          sn->ok = fresh_like(m, F0);
+          if (sn->ok) { sn->pars = F0.g->get_bb_params(); sn->toall = F0.g->get_to_all_events(); }
+          fc = fresh_cache.emplace(m.key(), sn).first;
+        }
+        if (!fc->second->ok) V("init-fresh", "a fresh instance with the same configuration does not initialise");
+        else {
+          const bxdecay0::bbpars & a = I.g->get_bb_params();
+          const bxdecay0::bbpars & b = fc->second->pars;
+          auto eqd = [](double x, double y) { return (std::isnan(x) && std::isnan(y)) || x == y; };
+          std::string d;
+#define CMPF(f) if (!eqd(a.f, b.f)) d += #f " ";
+          CMPF(Qbb) CMPF(Edlevel) CMPF(EK) CMPF(Zdbb) CMPF(Adbb) CMPF(spmax) CMPF(toallevents) CMPF(ebb1) CMPF(ebb2) CMPF(e0)
+#undef CMPF
+          if (a.modebb != b.modebb) d += "modebb ";
+          if (a.levelE != b.levelE) d += "levelE ";
+          if (a.itrans02 != b.itrans02) d += "itrans02 ";
+          for (unsigned k = 0; k < bxdecay0::bbpars::SPSIZE; k++)
+            if (!eqd(a.spthe1[k], b.spthe1[k])) { d += "spthe1 "; break; }
+          if (!(I.g->get_to_all_events() == fc->second->toall)) d += "get_to_all_events ";
+          if (!d.empty()) V("init-params", "after this initialisation the working parameters differ from those of a fresh instance configured the same way: " + d);
+        }
       }
       if (op.kind == 8 && !o.threw) {
         // C07-style probe: the shot must equal the same shot of a fresh instance configured alike
